@@ -282,9 +282,13 @@ def dynamic_check(pid, tier, mode):
     vlib.build_harness()
     thorough = tier == "thorough"
     # (A) design: the buffered protocol (validated updates, lazy replay, selector-guarded re-issue, caches) answers for the logical framework
-    for cfg in ["MCDynamic_CO.cfg", "MCDynamic_ST.cfg"] + (["MCDynamic_CO_L3.cfg"] if thorough else []):
+    for cfg in ["MCDynamic_CO.cfg", "MCDynamic_ST.cfg", "MCDynamic_PR.cfg"] + (["MCDynamic_CO_L3.cfg"] if thorough else []):
         res.add_mc(vlib.mc("MCDynamic.tla", cfg=cfg, wd=res.wd, name=cfg[:-4], timeout=3600))
+    res.add_mc(vlib.mc("DynVars.tla", cfg="MCDynVars.cfg", wd=res.wd, name="MCDynVars", timeout=600))
+    # sensitivity of the models: the pinned (defective) designs must be rejected by TLC
     res.extra["model_rejects_missing_reissue_after_removal"] = vlib.mc_expect_violation("MCDynamic.tla", "MCDynamic_defect.cfg", res.wd, "MCDynamic_defect")
+    res.extra["model_rejects_stale_cached_certificate_F7"] = vlib.mc_expect_violation("MCDynamic.tla", "MCDynamic_PR_stale.cfg", res.wd, "MCDynamic_PR_stale")
+    res.extra["model_rejects_private_variable_counter_F9"] = vlib.mc_expect_violation("DynVars.tla", "MCDynVars_defect.cfg", res.wd, "MCDynVars_defect")
     runs = []
     hfile, nh = store_histories(res, 3)
     runs.append(("hist3_real", ["--hists", hfile, "--oracle", "real"], nh))
